@@ -63,6 +63,22 @@ class HookDict(dict):
     def keys(self):
         return KeysProxy(self)
 
+    def __setitem__(self, k, v):
+        rec = self.rec
+        if rec is not None and rec.active and rec.depth == 0:
+            f = sys._getframe(1)
+            if f.f_code.co_name not in ("__getitem__", "traced_getitem"):
+                rec.events.append({"ev": "set", "key": k, "depth": 0})
+        dict.__setitem__(self, k, v)
+
+    def __delitem__(self, k):
+        rec = self.rec
+        if rec is not None and rec.active:
+            f = sys._getframe(1)
+            if f.f_code.co_name not in ("cleanup_cache", "traced_cleanup"):
+                rec.events.append({"ev": "userdel", "key": k, "depth": rec.depth})
+        dict.__delitem__(self, k)
+
     def __getitem__(self, k):
         rec = self.rec
         if rec is not None and rec.active and rec.depth > 0:
